@@ -25,8 +25,18 @@ type routerKnobs struct {
 }
 
 func init() {
-	gens["C01"] = routerGen(routerKnobs{prof: profDefault, routesMax: 8, reqs: 14, hdrPct: 8, treq: true,
-		sessions: [2]int{1500, 40000}, small: [2]int{2, 3}, smallT: [2]int{3, 4}})
+	withDsl := func(g func(r *rand.Rand, tier string, emit Emit), quick, thorough int) func(r *rand.Rand, tier string, emit Emit) {
+		return func(r *rand.Rand, tier string, emit Emit) {
+			g(r, tier, emit)
+			n := quick
+			if tier == "thorough" {
+				n = thorough
+			}
+			genDslSlice(r, emit, n)
+		}
+	}
+	gens["C01"] = withDsl(routerGen(routerKnobs{prof: profDefault, routesMax: 8, reqs: 14, hdrPct: 8, treq: true,
+		sessions: [2]int{1500, 40000}, small: [2]int{2, 3}, smallT: [2]int{3, 4}}), 250, 4000)
 	gens["C02"] = routerGen(routerKnobs{prof: profBinds, routesMax: 6, reqs: 14, hdrPct: 5, treq: true,
 		sessions: [2]int{1500, 40000}})
 	c07router := routerGen(routerKnobs{prof: profDefault, routesMax: 6, reqs: 16, hdrPct: 15, rawPaths: true, repeat: true,
@@ -36,8 +46,8 @@ func init() {
 		c07router(r, tier, emit)
 		genApp(r, tier, emit)
 	}
-	gens["C08"] = routerGen(routerKnobs{prof: profDefault, routesMax: 12, reqs: 8, hdrPct: 0, treq: false,
-		sessions: [2]int{2500, 60000}})
+	gens["C08"] = withDsl(routerGen(routerKnobs{prof: profDefault, routesMax: 12, reqs: 8, hdrPct: 0, treq: false,
+		sessions: [2]int{2500, 60000}}), 250, 4000)
 	gens["C09"] = routerGen(routerKnobs{prof: profStaticMix, routesMax: 5, reqs: 14, hdrPct: 75, reHdr: true, treq: true,
 		sessions: [2]int{1500, 40000}})
 	gens["C10"] = routerGen(routerKnobs{prof: profStatic, routesMax: 7, reqs: 14, hdrPct: 30, reHdr: true, treq: true, interleave: true,
@@ -68,6 +78,9 @@ func methodsFor(r *rand.Rand) string {
 		return "get"
 	case k < 19:
 		return "HEAD"
+	case k < 20 && r.Intn(3) == 0:
+		// a list in which a known method stands next to an unknown or empty one: the whole registration is refused
+		return pick(r, []string{"GET,BREW", "BREW,GET", "POST,", ",GET", "PUT, ,PATCH", "GET,POST,PROPFIND", "get,brew"})
 	default:
 		return pick(r, []string{"FOO", "", "PUT", "DELETE,PATCH"})
 	}
@@ -226,7 +239,7 @@ func deepFamilySession(r *rand.Rand, k routerKnobs, emit Emit) {
 }
 
 func routerSession1(r *rand.Rand, k routerKnobs, emit Emit) {
-	if !k.rawPaths && k.urlOps == 0 && r.Intn(25) == 0 {
+	if k.urlOps == 0 && r.Intn(25) == 0 {
 		wideSession(r, k, emit)
 		return
 	}
